@@ -550,4 +550,12 @@ def rule_r4(ctx):
     return rr
 
 
-RULES = [("C16-R1", rule_r1), ("C16-R2", rule_r2), ("C16-R3", rule_r3), ("C16-R4", rule_r4)]
+def rule_c02r5(ctx):
+    """"... and that text evaluates like the script": the library hands back the unparser's text
+    unaltered (shared rule C02-R5)."""
+    from .c02 import rule_r5 as r
+
+    return r(ctx)
+
+
+RULES = [("C16-R1", rule_r1), ("C16-R2", rule_r2), ("C16-R3", rule_r3), ("C16-R4", rule_r4), ("C02-R5", rule_c02r5)]
